@@ -491,45 +491,73 @@ func c20Subset(c *Ctx) {
 		r.Undecided("R20-subset", "truncate keeps a prefix of the list", "", "", "generic instance of truncate not found")
 	}
 
-	// castle branch: the filter runs only when a castle move was ranked, and keeps ranked moves
+	// castle branch: the filter runs only when a castle move was ranked, and keeps ranked moves.
+	// Every other operation that can shrink the list (a FindMoves with a closure predicate, a
+	// re-slicing) must sit under that flag too - otherwise it can leave no move although one exists.
 	castleOK := false
+	nFilters := 0
+	unguarded := ""
 	for _, b := range fpm.Blocks {
 		for _, ins := range b.Instrs {
-			call, isCall := ins.(*ssa.Call)
-			if !isCall || call.Call.StaticCallee() == nil || call.Call.StaticCallee().Name() != "FindMoves" {
+			shrinks := false
+			if call, isCall := ins.(*ssa.Call); isCall && call.Call.StaticCallee() != nil && call.Call.StaticCallee().Name() == "FindMoves" {
+				if _, isClosure := stripConv(call.Call.Args[1]).(*ssa.MakeClosure); isClosure {
+					shrinks = true
+				}
+			}
+			if sl, isSlice := ins.(*ssa.Slice); isSlice && (sl.Low != nil || sl.High != nil) {
+				if st, ok := sl.X.Type().Underlying().(*types.Slice); ok && namedOf(st.Elem()) != nil && core.ObjName(namedOf(st.Elem()).Obj()) == "Move" {
+					shrinks = true
+				}
+			}
+			if !shrinks {
 				continue
 			}
-			if _, isClosure := stripConv(call.Call.Args[1]).(*ssa.MakeClosure); !isClosure {
-				continue // the initial method-value filter
-			}
-			// dominated by the true edge of the 'castle' flag
-			cur := b
-			for cur != nil {
-				d := cur.Idom()
-				if d == nil {
-					break
+			nFilters++
+			guarded := false
+			for _, ge := range edgeGuards(b) {
+				if !ge.pol {
+					continue
 				}
-				if ifi, ok := d.Instrs[len(d.Instrs)-1].(*ssa.If); ok {
-					if phi, ok := ifi.Cond.(*ssa.Phi); ok && onEdge(d, 0, cur) {
-						// the flag becomes true only in a block that also ranks the move
-						setWithRank := false
-						for i, e := range phi.Edges {
-							if v, isC := constBoolArg(e); isC && v {
-								for _, pi := range phi.Block().Preds[i].Instrs {
-									if _, isMU := pi.(*ssa.MapUpdate); isMU {
-										setWithRank = true
-									}
+				// a boolean variable that becomes true only in a block that also ranks the move
+				nTrue, other, withRank := 0, 0, true
+				for _, df := range defSites(ge.cond, map[ssa.Value]bool{}) {
+					v, isC := constBoolArg(df.val)
+					if !isC {
+						other++
+						continue
+					}
+					if v {
+						nTrue++
+						ranked := false
+						if df.blk != nil {
+							for _, pi := range df.blk.Instrs {
+								if _, isMU := pi.(*ssa.MapUpdate); isMU {
+									ranked = true
 								}
 							}
 						}
-						castleOK = setWithRank
+						withRank = withRank && ranked
 					}
 				}
-				cur = d
+				if _, isPhi := ge.cond.(*ssa.Phi); !isPhi {
+					if u, ok := ge.cond.(*ssa.UnOp); !ok || u.Op != token.MUL {
+						continue
+					}
+				}
+				if other == 0 && nTrue > 0 && withRank {
+					guarded = true
+				}
+			}
+			if guarded {
+				castleOK = true
+			} else {
+				unguarded = joinNonEmpty(unguarded, "the list is narrowed at "+c.pos(ins.Pos())+" outside the castle branch")
 			}
 		}
 	}
-	r.Check(castleOK, "R20-subset", "the castle branch filters only after a castle move was ranked", c.pos(fpm.Pos()), "", "the second FindMoves must be guarded by the flag that is set when a castle move receives its rank (otherwise it can empty the list)")
+	castleOK = castleOK && unguarded == "" && nFilters >= 1
+	r.Check(castleOK, "R20-subset", "the castle branch filters only after a castle move was ranked", c.pos(fpm.Pos()), "", joinNonEmpty(unguarded, "every narrowing of the move list after the initial filter must be guarded by the flag that is set when a castle move receives its rank (otherwise it can empty the list)"))
 
 	// exploration predicates are consulted only after a successful push
 	m := newSearchModel(c, "R20-subset")
@@ -574,6 +602,86 @@ func c20Book(c *Ctx) {
 	if nb == nil || posMove == nil || equals == nil {
 		return
 	}
+	plm := c.find("pkg/board", "Position", "PseudoLegalMoves")
+	decode := c.find("pkg/board/fen", "", "Decode")
+	// genEqual: v is a move generated for (pos, turn) that Equals the parsed text - found inline by a
+	// guarded loop over the generated moves, or by a helper that returns such a move with a found flag
+	var genEqual func(v ssa.Value, at *ssa.BasicBlock, depth int) (pos, turn, parsed ssa.Value, ok bool)
+	genEqual = func(v ssa.Value, at *ssa.BasicBlock, depth int) (ssa.Value, ssa.Value, ssa.Value, bool) {
+		v = stripConv(v)
+		if ld, isLoad := v.(*ssa.UnOp); isLoad && ld.Op == token.MUL {
+			if ia, isIA := ld.X.(*ssa.IndexAddr); isIA {
+				if gen, isCall := ia.X.(*ssa.Call); isCall && gen.Call.StaticCallee() == plm && len(gen.Call.Args) == 2 {
+					for _, ge := range edgeGuards(at) {
+						call, isCall := ge.cond.(*ssa.Call)
+						if !isCall || call.Call.StaticCallee() != equals || !ge.pol || len(call.Call.Args) != 2 {
+							continue
+						}
+						a0, a1 := call.Call.Args[0], call.Call.Args[1]
+						switch {
+						case sameLoad(a0, v):
+							return gen.Call.Args[0], gen.Call.Args[1], a1, true
+						case sameLoad(a1, v):
+							return gen.Call.Args[0], gen.Call.Args[1], a0, true
+						}
+					}
+				}
+			}
+			return nil, nil, nil, false
+		}
+		ex, isEx := v.(*ssa.Extract)
+		if !isEx || ex.Index != 0 || depth > 1 {
+			return nil, nil, nil, false
+		}
+		hc, isCall := ex.Tuple.(*ssa.Call)
+		if !isCall || hc.Call.StaticCallee() == nil || hc.Call.StaticCallee().Blocks == nil || hc.Call.StaticCallee().Pkg != nb.Pkg {
+			return nil, nil, nil, false
+		}
+		// the found flag of that call must be true here
+		flagOK := false
+		for _, ge := range edgeGuards(at) {
+			if fx, ok := ge.cond.(*ssa.Extract); ok && fx.Tuple == ssa.Value(hc) && fx.Index == 1 && ge.pol {
+				flagOK = true
+			}
+		}
+		if !flagOK {
+			return nil, nil, nil, false
+		}
+		h := hc.Call.StaticCallee()
+		var hp, ht, hx ssa.Value
+		nTrue := 0
+		for _, hb := range h.Blocks {
+			ret, isRet := hb.Instrs[len(hb.Instrs)-1].(*ssa.Return)
+			if !isRet || len(ret.Results) != 2 {
+				continue
+			}
+			if fv, isC := constBoolArg(ret.Results[1]); isC && !fv {
+				continue
+			} else if !isC {
+				return nil, nil, nil, false
+			}
+			p2, t2, x2, ok := genEqual(ret.Results[0], hb, depth+1)
+			if !ok {
+				return nil, nil, nil, false
+			}
+			hp, ht, hx = p2, t2, x2
+			nTrue++
+		}
+		if nTrue == 0 {
+			return nil, nil, nil, false
+		}
+		arg := func(v ssa.Value) ssa.Value {
+			if prm, ok := v.(*ssa.Parameter); ok {
+				for i, q := range h.Params {
+					if q == prm && i < len(hc.Call.Args) {
+						return hc.Call.Args[i]
+					}
+				}
+			}
+			return v
+		}
+		return arg(hp), arg(ht), arg(hx), true
+	}
 	bad := ""
 	n := 0
 	for _, b := range nb.Blocks {
@@ -587,47 +695,57 @@ func c20Book(c *Ctx) {
 			}
 			n++
 			key := mu.Key // the candidate move
-			// dominated by ok-edge of pos.Move(candidate) and by Equals(candidate, parsed)
-			moveOK, eqOK := false, false
-			var moveCall *ssa.Call
-			cur := b
-			for cur != nil {
-				d := cur.Idom()
-				if d == nil {
-					break
+			pos, turn, parsed, ok := genEqual(key, b, 0)
+			if !ok {
+				bad = joinNonEmpty(bad, "the recorded move is "+pathExpr(key)+", which is not established to be a generated move equal to the parsed text")
+				continue
+			}
+			if pv := c.provenance(nb, parsed); !pv.via("ParseMove") {
+				bad = joinNonEmpty(bad, "the move compared with is not the parsed text")
+			}
+			// accepted by Position.Move on that same position
+			moveOK := false
+			for _, ge := range edgeGuards(b) {
+				ex, isEx := ge.cond.(*ssa.Extract)
+				if !isEx || ex.Index != 1 || !ge.pol {
+					continue
 				}
-				if ifi, ok := d.Instrs[len(d.Instrs)-1].(*ssa.If); ok {
-					if ex, ok := ifi.Cond.(*ssa.Extract); ok && ex.Index == 1 {
-						if call, ok := ex.Tuple.(*ssa.Call); ok && call.Call.StaticCallee() == posMove && onEdge(d, 0, cur) && pathExpr(call.Call.Args[1]) == pathExpr(key) {
-							moveOK = true
-							moveCall = call
-						}
-					}
-					if call, ok := ifi.Cond.(*ssa.Call); ok && call.Call.StaticCallee() == equals && onEdge(d, 0, cur) {
-						a0, a1 := pathExpr(call.Call.Args[0]), pathExpr(call.Call.Args[1])
-						if (a0 == pathExpr(key) && strings.HasPrefix(a1, "ParseMove(")) || (a1 == pathExpr(key) && strings.HasPrefix(a0, "ParseMove(")) {
-							eqOK = true
-						}
+				if call, isCall := ex.Tuple.(*ssa.Call); isCall && call.Call.StaticCallee() == posMove && len(call.Call.Args) == 2 {
+					if call.Call.Args[0] == pos && sameLoad(call.Call.Args[1], key) {
+						moveOK = true
 					}
 				}
-				cur = d
 			}
 			if !moveOK {
-				bad = joinNonEmpty(bad, "a book move is recorded without Position.Move having accepted it")
+				bad = joinNonEmpty(bad, "a book move is recorded without Position.Move having accepted it on the position it was generated in")
 			}
-			if !eqOK {
-				bad = joinNonEmpty(bad, "the recorded move is not the generated candidate equal to the parsed text")
-			}
-			if !strings.Contains(pathExpr(key), "PseudoLegalMoves(") {
-				bad = joinNonEmpty(bad, "the recorded move is "+pathExpr(key)+", not a generated move")
-			}
-			// the position the candidate is played in is the one decoded from the map key's FEN
-			if moveCall != nil {
-				posE := pathExpr(moveCall.Call.Args[0])
-				keyE := pathExpr(mu.Map)
-				if !strings.HasPrefix(posE, "Decode(phi:key)") || !strings.Contains(keyE, "Strip(phi:key)") {
-					bad = joinNonEmpty(bad, fmt.Sprintf("the move is tried on %s but filed under %s", posE, keyE))
+			// the position is the one decoded from the FEN the entry is filed under
+			pex, _ := pos.(*ssa.Extract)
+			tex, _ := turn.(*ssa.Extract)
+			var fenV ssa.Value
+			if pex != nil && tex != nil && pex.Tuple == tex.Tuple && pex.Index == 0 && tex.Index == 1 {
+				if dc, ok := pex.Tuple.(*ssa.Call); ok && dc.Call.StaticCallee() == decode && len(dc.Call.Args) == 1 {
+					fenV = dc.Call.Args[0]
 				}
+			}
+			filed := false
+			if lk, ok := mu.Map.(*ssa.Lookup); ok && fenV != nil {
+				idx := lk.Index
+				if sc, ok := idx.(*ssa.Call); ok && sc.Call.StaticCallee() != nil && sc.Call.StaticCallee().Name() == "Strip" && len(sc.Call.Args) == 1 {
+					filed = sc.Call.Args[0] == fenV
+				} else if !ok {
+					// the stripped key kept in a local
+					var defs []ssa.Value
+					resolveDefs(idx, map[ssa.Value]bool{}, &defs)
+					for _, d := range defs {
+						if sc, ok := d.(*ssa.Call); ok && sc.Call.StaticCallee() != nil && sc.Call.StaticCallee().Name() == "Strip" && len(sc.Call.Args) == 1 && sc.Call.Args[0] == fenV {
+							filed = true
+						}
+					}
+				}
+			}
+			if !filed {
+				bad = joinNonEmpty(bad, fmt.Sprintf("the move is generated on %s but filed under %s", pathExpr(pos), pathExpr(mu.Map)))
 			}
 		}
 	}
@@ -656,4 +774,28 @@ func funcPkgPath(f *ssa.Function) string {
 		f = f.Parent()
 	}
 	return ""
+}
+
+// sameLoad: two values are the same SSA value, or loads of the same address (go/ssa does not
+// merge repeated loads of a range element / spilled local).
+func sameLoad(a, b ssa.Value) bool {
+	a, b = stripConv(a), stripConv(b)
+	if a == b {
+		return true
+	}
+	la, oka := a.(*ssa.UnOp)
+	lb, okb := b.(*ssa.UnOp)
+	if oka && okb && la.Op == token.MUL && lb.Op == token.MUL {
+		if la.X == lb.X {
+			return true
+		}
+		// a local copy of the element: `candidate := list[i]` spilled to an alloc
+		var da, db []ssa.Value
+		resolveDefs(a, map[ssa.Value]bool{}, &da)
+		resolveDefs(b, map[ssa.Value]bool{}, &db)
+		if len(da) == 1 && len(db) == 1 && da[0] == db[0] {
+			return true
+		}
+	}
+	return false
 }
